@@ -6,7 +6,7 @@
    the finalizations, the positional writes, the acknowledgements. *)
 From Coq Require Import ZArith List Bool Arith.
 Import ListNotations.
-From TF Require Import Lib.GoInt Model.Recv.
+From TF Require Import Lib.GoInt Model.Recv Model.Send.
 Open Scope Z_scope.
 
 (* result: 0 = still running, 1 = returned nil, 2 = returned an error, 3 = panicked *)
@@ -59,11 +59,18 @@ Fixpoint prior_of (l : list (nat * list Z)) (i : nat) : list Z :=
   end.
 
 Inductive case :=
-  Run (id : Z) (m : list mfile) (res : bool) (pr : list (nat * list Z)) (evs : list ev)
-      (acks_exact : bool) (o : obs).
+| Run (id : Z) (m : list mfile) (res : bool) (pr : list (nat * list Z)) (evs : list ev)
+      (acks_exact : bool) (o : obs)
+| SendRun (id : Z) (files : list Z) (evs : list sev) (res : Z).   (* res: 0 running, 1 nil, 2 error *)
 
-Definition case_id (c : case) : Z := match c with Run id _ _ _ _ _ _ => id end.
+Definition sres_code (s : sst) : Z :=
+  match s_result s with None => 0 | Some SSuccess => 1 | Some SFailed => 2 end.
+
+Definition case_id (c : case) : Z := match c with Run id _ _ _ _ _ _ => id | SendRun id _ _ _ => id end.
 Definition check (c : case) : bool :=
-  match c with Run _ m r pr evs ax o => obs_eqb (observe (run (init m r (prior_of pr)) evs)) o ax end.
+  match c with
+  | Run _ m r pr evs ax o => obs_eqb (observe (run (init m r (prior_of pr)) evs)) o ax
+  | SendRun _ files evs res => sres_code (srun (sinit files) evs) =? res
+  end.
 Definition mismatches (cs : list case) : list Z :=
   map case_id (filter (fun c => negb (check c)) cs).
